@@ -113,34 +113,10 @@ func vxCoupled(c *xsyncMap, r *vxRef, k string, now int64) bool {
 	return rok && iv == rv && ie == re
 }
 
-// VxH_C01_step: one call of method op from an arbitrary two-entry pre-state,
-// arbitrary clock, arbitrary TTL argument; compared with the reference TTL map.
-func VxH_C01_step(op int) {
-	now := xsync.VxI64("now")
-	xsync.VxAssume(now >= 0 && now < 1<<62)
-	xsync.VxClockSet(now)
-	def := time.Duration(xsync.VxI64("default"))
-	c := vxNewCache(1, def, nil)
-	r := &vxRef{def: def}
-	k1, k2 := xsync.VxStr("k1"), xsync.VxStr("k2")
-	xsync.VxAssume(k1 != k2)
-	if xsync.VxBool("has1") {
-		v, e := vxVal("pv1"), xsync.VxI64("pe1")
-		xsync.VxAssume(e >= 0)
-		vxPut(c, k1, v, e)
-		r.put(k1, v, e)
-	}
-	if xsync.VxBool("has2") {
-		v, e := vxVal("pv2"), xsync.VxI64("pe2")
-		xsync.VxAssume(e >= 0)
-		vxPut(c, k2, v, e)
-		r.put(k2, v, e)
-	}
-	k := xsync.VxStr("k")
-	nv := vxVal("nv")
-	d := time.Duration(xsync.VxI64("d"))
-	xsync.VxReach("pre-state built")
-
+// genof
+// vxC01Apply performs one call of method op on the cache and on the reference
+// TTL map and asserts that everything the caller can observe agrees.
+func vxC01Apply(c *xsyncMap, r *vxRef, op int, k1, k2, k string, nv interface{}, d time.Duration, del bool, now int64) {
 	wv, we, wok := r.get(k, now)
 	switch op {
 	case opSet:
@@ -220,7 +196,6 @@ func VxH_C01_step(op int) {
 			r.put(k, nv, r.exp(d, now))
 		}
 	case opCompute:
-		del := xsync.VxBool("del")
 		calls := 0
 		var gotOld interface{}
 		var gotLoaded bool
@@ -260,6 +235,37 @@ func VxH_C01_step(op int) {
 		r.del(k1)
 		r.del(k2)
 	}
+}
+
+// VxH_C01_step: one call of method op from an arbitrary two-entry pre-state,
+// arbitrary clock, arbitrary TTL argument; compared with the reference TTL map.
+func VxH_C01_step(op int) {
+	now := xsync.VxI64("now")
+	xsync.VxAssume(now >= 0 && now < 1<<62)
+	xsync.VxClockSet(now)
+	def := time.Duration(xsync.VxI64("default"))
+	c := vxNewCache(1, def, nil)
+	r := &vxRef{def: def}
+	k1, k2 := xsync.VxStr("k1"), xsync.VxStr("k2")
+	xsync.VxAssume(k1 != k2)
+	if xsync.VxBool("has1") {
+		v, e := vxVal("pv1"), xsync.VxI64("pe1")
+		xsync.VxAssume(e >= 0)
+		vxPut(c, k1, v, e)
+		r.put(k1, v, e)
+	}
+	if xsync.VxBool("has2") {
+		v, e := vxVal("pv2"), xsync.VxI64("pe2")
+		xsync.VxAssume(e >= 0)
+		vxPut(c, k2, v, e)
+		r.put(k2, v, e)
+	}
+	k := xsync.VxStr("k")
+	nv := vxVal("nv")
+	d := time.Duration(xsync.VxI64("d"))
+	xsync.VxReach("pre-state built")
+
+	vxC01Apply(c, r, op, k1, k2, k, nv, d, xsync.VxBool("del"), now)
 	pv, pe, pok := vxPeek(c, k)
 	xsync.VxObserve("post.ok", pok)
 	if pok {
@@ -269,5 +275,35 @@ func VxH_C01_step(op int) {
 	xsync.VxAssert(vxCoupled(c, r, k1, now), "post-state agrees with reference on k1")
 	xsync.VxAssert(vxCoupled(c, r, k2, now), "post-state agrees with reference on k2")
 	xsync.VxAssert(vxCoupled(c, r, k, now), "post-state agrees with reference on k")
+	xsync.VxReach("end")
+}
+
+
+// VxH_C01_hist2: a history of two calls with symbolic method selectors and a
+// symbolic clock advance in between, from an EMPTY cache built by the real
+// constructor path - no coupling relation is assumed, every result is compared
+// with the reference TTL map.
+func VxH_C01_hist2(first int) {
+	now := xsync.VxI64("now")
+	xsync.VxAssume(now >= 0 && now < 1<<61)
+	xsync.VxClockSet(now)
+	def := time.Duration(xsync.VxI64("default"))
+	c := vxNewCache(1, def, nil)
+	r := &vxRef{def: def}
+	k1, k2 := xsync.VxStr("k1"), xsync.VxStr("k2")
+	xsync.VxAssume(k1 != k2)
+	// step 0: a storing call so that something is there
+	v0 := vxVal("v0")
+	d0 := time.Duration(xsync.VxI64("d0"))
+	vxC01Apply(c, r, first, k1, k2, k1, v0, d0, false, now)
+	// clock advance, then a call with a symbolic selector among the reading / deleting methods
+	now2 := xsync.VxI64("now2")
+	xsync.VxAssume(now2 >= now && now2 < 1<<62)
+	xsync.VxClockSet(now2)
+	op2 := xsync.VxChoice("op2", 15)
+	k := xsync.VxStr("k")
+	xsync.VxReach("first call done")
+	vxC01Apply(c, r, op2, k1, k2, k, vxVal("nv"), time.Duration(xsync.VxI64("d")), xsync.VxBool("del"), now2)
+	xsync.VxAssert(vxCoupled(c, r, k1, now2) && vxCoupled(c, r, k, now2), "after the history the contents agree with the reference")
 	xsync.VxReach("end")
 }
